@@ -40,6 +40,7 @@ contract("BloomFilter._get_optimized_params", kind="classmethod",
          contexts=["BloomFilter", "BloomFilterOnDisk", "CountingBloomFilter"],
          properties=["C07", "C01", "C12", "C13"],
          params={"estimated_elements": "int", "false_positive_rate": "float"}, returns="tuple[float,int,int]",
+         reveal=["bloom_m", "bloom_k"],
          requires=[("rate_representable", "false_positive_rate < 0.0 or f32(false_positive_rate) > 0.0")],
          raises={"InitializationError": {"when": "estimated_elements <= 0 or false_positive_rate < 0.0 or "
                                                  "false_positive_rate >= 1.0 or "
@@ -49,7 +50,7 @@ contract("BloomFilter._get_optimized_params", kind="classmethod",
          ensures=[("rate_narrowed_to_float32", "result[0] == f32(false_positive_rate)"),
                   ("bits_formula", "result[2] == bloom_m(estimated_elements, f32(false_positive_rate))"),
                   ("hashes_formula", "result[1] == bloom_k(estimated_elements, result[2])"),
-                  ("at_least_one_hash", "result[1] >= 1")])
+                  ("at_least_one_hash", "result[1] >= 1"), ("at_least_one_bit", "result[2] >= 1")])
 
 contract("BloomFilter._set_values", contexts=["BloomFilter", "CountingBloomFilter"], properties=["C01", "C12", "C13", "C05"],
          params={"est_els": "int", "fpr": "float", "n_hashes": "int", "n_bits": "int", "hash_func": "opt[hashfunc]"},
